@@ -98,10 +98,10 @@ def validate(events, name, canary=True):
     return res, bad
 
 
-def classify_lost_abort(src, args, tracing):
+def classify_lost_abort(src, args, tracing, fn="entry"):
     """Why did an abort that the source asks for not happen?  Re-runs the module with the optimiser's stages
     and returns the key of a recorded finding when the chain shows exactly that defect, else None."""
-    o = vlib.run_harness("aiken_run", stdin_lines=[{"id": 0, "src": src, "tracings": [tracing], "fns": [{"name": "entry", "args": [args]}],
+    o = vlib.run_harness("aiken_run", stdin_lines=[{"id": 0, "src": src, "tracings": [tracing], "fns": [{"name": fn, "args": [args]}],
                                                     "pre": True, "stages": True}])[0]
     run = o["runs"][0]
     if run["check"] != "ok" or run["fns"][0]["compile"] != "ok":
@@ -123,6 +123,57 @@ def classify_chain(chain):
     if names[first_val] == "multi_pass*" and chain[0][1].get("e") == "DeserialisationError":
         return "multi_pass:deserialisation-check-dropped"
     return None
+
+
+def run_directed(tracings, rep, pre=False, stages=False, which="post"):
+    """aikendirected.all_families() on the real compiler; returns (mods, events, obs). A directed module the checker
+    rejects is a tool error (the templates are mine)."""
+    import aikendirected as ad
+    mods = ad.all_families()
+    cases = [{"id": i, "src": m["src"], "tracings": tracings, "fns": [{"name": n, "args": args} for n, _, args in m["entries"]],
+              "pre": pre, "stages": stages} for i, m in enumerate(mods)]
+    obs = vlib.run_harness("aiken_run", stdin_lines=cases, timeout=3600)
+    events = []
+    for mi, (m, o) in enumerate(zip(mods, obs)):
+        if "harness_error" in o:
+            raise vlib.ToolError("aiken_run: " + o["harness_error"])
+        for r in o["runs"]:
+            if r["check"] != "ok":
+                if isinstance(r["check"], dict) and "panic" in r["check"]:
+                    rep.violation("checker-panic:" + m["src"], {"src": m["src"], "tracing": r["tracing"], "panic": r["check"]["panic"]},
+                                  "type checker panicked: %s" % r["check"]["panic"][:200])
+                    continue
+                raise vlib.ToolError("directed family %s rejected by the checker under %s: %s\n%s" % (m["family"], r["tracing"], json.dumps(r["check"])[:600], m["src"][-1500:]))
+            for (name, sig, args), f in zip(m["entries"], r["fns"]):
+                if f["compile"] != "ok":
+                    rep.violation("compile-panic:" + m["family"] + ":" + name + ":" + m["src"], {"src": m["src"], "fn": name, "tracing": r["tracing"], "compile": f["compile"]},
+                                  "code generator / optimiser panicked on a well-typed module: %s" % json.dumps(f["compile"])[:300])
+                    continue
+                for ai, (a, x) in enumerate(zip(args, f["results"])):
+                    events.append({"id": len(events), "m": m["spec"], "f": name, "sig": sig, "ret": ag.DATA, "args": a,
+                                   "out": slim(x[which]), "_mi": mi, "_ai": ai, "_tr": r["tracing"], "_fn": name, "_x": x})
+    return mods, events, obs
+
+
+def fn_source(src, name):
+    i = src.index("pub fn %s(" % name)
+    j = src.find("\npub fn ", i + 1)
+    return src[i:j if j > 0 else len(src)]
+
+
+def judge_directed(mods, events, rep, name, prop):
+    """Obs_Aiken over the directed events; violations keyed by (family, function source, arguments[, tracing])"""
+    for e in events:
+        e.pop("_x", None)
+    res, bad = validate(events, name)
+    for e, why in bad:
+        m = mods[e["_mi"]]
+        key = classify_lost_abort(m["src"], e["args"], e["_tr"], e["_fn"]) if "aborts" in why else None
+        rep.violation(key or vlib.canon_hash([m["family"], fn_source(m["src"], e["_fn"]), e["args"], e["_tr"] if prop == "C14" else ""]),
+                      {"src": m["src"], "fn": e["_fn"], "args": e["args"], "observed": e["out"], "tracing": e["_tr"], "family": m["family"],
+                       "function": fn_source(m["src"], e["_fn"])},
+                      "directed family %s, under tracing %s: Obs_Aiken: %s" % (m["family"], e["_tr"], why))
+    return res, bad
 
 
 def sample_of(m, e):
@@ -148,6 +199,10 @@ def c01(tier):
                       {"src": m["src"], "fn": "entry", "args": e["args"], "sig": m["sig"], "module": m["spec"], "observed": e["out"], "tracing": e["_tr"]},
                       "Obs_Aiken: " + why)
     fams = enumerated_families(tier, rep)
+    dmods, devents, _ = run_directed([["all", "silent"], ["all", "verbose"]], rep)
+    dres, dbad = judge_directed(dmods, devents, rep, "c01d", "C01")
+    fams["states"] += dres["states"]; fams["transitions"] += dres["generated"]; fams["replayed"] += dres["ok"]
+    fams["samples"].append({"directed_families": sorted(set(m["family"] for m in dmods)), "events": len(devents), "judged_ok": dres["ok"]})
     nontriv = set(vlib.canon_hash([mods[e["_mi"]]["src"], e["args"]]) for e in events)
     cov = {"states": res["states"] + fams["states"], "transitions": res["generated"] + fams["transitions"],
            "traces_validated_against_impl": res["ok"] + fams["replayed"],
@@ -156,8 +211,10 @@ def c01(tier):
            "rule": "seeded typed generator of modules (ADTs incl. generic and recursive, records, tuples, pairs, lists, Option, "
                    "lambdas, higher-order and (mutually) recursive helpers, when/if/let/expect, casts from and to Data, pipes, "
                    "and/or blocks, traces) x 3 argument tuples each; every run of the compiled entry point is one event judged by "
-                   "Aiken.tla's Eval. Plus TLC-enumerated operator families (MC_AikenExpr) replayed exhaustively. distinct = "
-                   "(source, arguments)",
+                   "Aiken.tla's Eval. Plus TLC-enumerated operator families (MC_AikenExpr) replayed exhaustively, plus directed families "
+                   "(aikendirected.py: every list-pattern shape x list length under expect, casts from Data x ill-formed data, bindings "
+                   "used only by a trace, a constant repeated three times in first/second operand position, Data parameters reached "
+                   "through function values) judged by Eval under silent and verbose tracing. distinct = (source, arguments)",
            "exhaustive": False, "modules_generated": n, "modules_accepted_by_checker": st["compiled"],
            "events_spec_could_not_judge": len(res["skipped"]), "aborting_runs": sum(1 for e in events if e["out"]["o"] == "fail")}
     rc = rep.finish()
@@ -273,8 +330,25 @@ def c06(tier):
             rep.violation(key or vlib.canon_hash([m["src"], e["args"]]),
                           {"src": m["src"], "fn": "entry", "args": e["args"], "observed": e["out"], "tracing": e["_tr"]},
                           "Obs_Aiken: " + why + " (a failure the source does not ask for, or a requested failure that did not happen)")
+    # directed families (see aikendirected.py): same two questions
+    dmods, devents, _ = run_directed([["all", "silent"], ["all", "verbose"]], rep)
+    for e in devents:
+        if e["out"]["o"] == "fail" and e["out"].get("c") in STRUCTURAL:
+            structural += 1
+            m = dmods[e["_mi"]]
+            rep.violation(vlib.canon_hash([m["family"], fn_source(m["src"], e["_fn"]), e["args"], "structural"]),
+                          {"src": m["src"], "fn": e["_fn"], "args": e["args"], "observed": e["out"], "tracing": e["_tr"], "function": fn_source(m["src"], e["_fn"])},
+                          "directed family %s: a type-checked program failed with a structural machine error: %s" % (m["family"], e["out"].get("e")))
+    dres, dbad = judge_directed(dmods, devents, rep, "c06d", "C06")
+    res["states"] += dres["states"]; res["generated"] += dres["generated"]; res["ok"] += dres["ok"]
     # ill-typed mutants: the checker must reject what the typing discipline forbids
-    mut = ill_typed_mutants(rng, 150 if tier == "quick" else 1500)
+    import aikendirected as ad
+    mut = ill_typed_mutants(rng, 150 if tier == "quick" else 1500) + ad.ill_typed_table()
+    controls = ad.well_typed_controls()
+    cobs = vlib.run_harness("aiken_run", stdin_lines=[{"id": i, "src": s, "tracings": [["all", "silent"]], "fns": []} for i, (s, _) in enumerate(controls)])
+    for (s, what), o in zip(controls, cobs):
+        if o["runs"][0]["check"] != "ok":
+            raise vlib.ToolError("a well-typed control of the ill-typed table is rejected (%s): %s\n%s" % (what, json.dumps(o["runs"][0]["check"])[:400], s[-500:]))
     mobs = vlib.run_harness("aiken_run", stdin_lines=[{"id": i, "src": s, "tracings": [["all", "silent"]], "fns": []} for i, (s, _) in enumerate(mut)])
     accepted_bad = 0
     for (s, what), o in zip(mut, mobs):
@@ -380,20 +454,37 @@ def c14(tier):
             rep.violation(vlib.canon_hash([m["src"], es[0]["args"], "diverge"]),
                           {"src": m["src"], "fn": "entry", "args": es[0]["args"], "by_tracing": [[e["_tr"], e["out"]] for e in es]},
                           "the same program and input decide differently under different trace settings")
+    dmods, devents, _ = run_directed(ALL_TRACINGS, rep)
+    dres, dbad = judge_directed(dmods, devents, rep, "c14d", "C14")
+    dgroups = {}
+    for e in devents:
+        dgroups.setdefault((e["_mi"], e["_fn"], e["_ai"]), []).append(e)
+    for (mi, fn, ai), es in dgroups.items():
+        outs = set(cj({"o": e["out"]["o"], "d": e["out"].get("d")}) for e in es)
+        if len(outs) > 1:
+            diverging += 1
+            m = dmods[mi]
+            rep.violation(vlib.canon_hash([m["family"], fn_source(m["src"], fn), es[0]["args"], "diverge"]),
+                          {"src": m["src"], "fn": fn, "args": es[0]["args"], "by_tracing": [[e["_tr"], e["out"]] for e in es], "function": fn_source(m["src"], fn)},
+                          "directed family %s: the same program and input decide differently under different trace settings" % m["family"])
+    if any(len(es) != 9 for es in dgroups.values()):
+        raise vlib.ToolError("C14: a directed program was not compiled under all 9 settings")
+    res["states"] += dres["states"]; res["generated"] += dres["generated"]; res["ok"] += dres["ok"]
     full = sum(1 for es in groups.values() if len(es) == 9)
     if full < 0.7 * len(groups):
         raise vlib.ToolError("C14: only %d of %d (program, input) pairs were compiled under all 9 settings" % (full, len(groups)))
     cov = {"states": res["states"], "transitions": res["generated"], "traces_validated_against_impl": res["ok"],
            "samples": [dict(sample_of(mods[events[0]["_mi"]], events[0]), tracing=events[0]["_tr"])],
-           "evaluations": len(events), "distinct_nontrivial": len(groups),
+           "evaluations": len(events) + len(devents), "distinct_nontrivial": len(groups) + len(dgroups),
            "rule": "each generated module (traces, `?`, expect, fail/todo dense) is type-checked AND compiled under all 9 Tracing values "
                    "(3 scopes x 3 levels); every run must equal Eval (which has no tracing parameter) and the 9 runs of one "
                    "(program, input) must agree with each other. distinct = (program, input)",
-           "exhaustive": False, "program_input_pairs": len(groups), "pairs_with_all_9_settings": full, "diverging_pairs": diverging}
+           "exhaustive": False, "program_input_pairs": len(groups), "pairs_with_all_9_settings": full, "diverging_pairs": diverging,
+           "directed_program_input_pairs": len(dgroups), "directed_families": sorted(set(m["family"] for m in dmods))}
     rc = rep.finish()
     vlib.write_evidence("C14", tier, "model_checking", cov,
-                        ["trace arguments in generated programs are string literals (the compiler's documented erasure of trace ARGUMENT "
-                         "evaluation under compact/silent is covered by a dedicated family, see DESIGN.md)"], time.time() - t0, len(rep.violations))
+                        ["trace arguments are variables (directed family trace-only) or absent; an argument EXPRESSION that can itself fail is not generated: "
+                         "the compiler documents that silent / compact builds do not evaluate trace arguments"], time.time() - t0, len(rep.violations))
     return rc
 
 
